@@ -80,6 +80,37 @@ package vals
 //@   ensures istype(rawIndex, string) && isslice(rawIndex.(string)) && !partsok(rawIndex.(string)) ==> err != nil
 
 // ---------------------------------------------------------------------------
+// Boundary contracts: total helper functions used by code under contract in
+// other packages. They are trusted (their bodies use reflection and caches that
+// are outside the verified subset); callers learn nothing but totality.
+
+//@ func Kind
+//@   trusted
+//@   pure
+//@ func IsFieldMap
+//@   trusted
+//@   pure
+//@ func GetFieldMapKeys
+//@   trusted
+//@   pure
+//@ func ReprPlain
+//@   trusted
+//@   pure
+//@ func Repr
+//@   trusted
+//@   pure
+//@ func ToString
+//@   trusted
+//@   pure
+//@ func Bool
+//@   trusted
+//@   pure
+//@ func Len
+//@   trusted
+//@   pure
+//@   ensures result >= -1
+
+// ---------------------------------------------------------------------------
 // C08: values that are eq are the same map key (equal values hash equally).
 // The harness verifEqHash (zz_verif_harness.go) calls the real Equal and Hash,
 // which are inlined into it arm by arm.
